@@ -18,7 +18,7 @@ import (
 
 // progNode is one statement of a registration program (C11).
 type progNode struct {
-	Op       string     `json:"op"` // verb | group | combo | routes | any | autohead
+	Op       string     `json:"op"` // verb | group | combo | routes | any | autohead | wrapper
 	Path     string     `json:"path,omitempty"`
 	Method   string     `json:"method,omitempty"`   // verb
 	NH       int        `json:"nh,omitempty"`       // number of own handlers
@@ -30,6 +30,8 @@ type progNode struct {
 	Share    int        `json:"share_prefix,omitempty"`     // verb: >0 = pass the first Share handlers of the previous verb route's slice (same backing array, same handlers) instead of fresh ones
 	Spelling string     `json:"spelling,omitempty"`         // routes: comma | multi
 	On       bool       `json:"on,omitempty"`               // autohead
+	Hdr      bool       `json:"headers_chained,omitempty"`  // verb | routes | any: .Headers("X-K", "^v1$") is chained on the value the call returns (it constrains what that call registered itself - not the HEAD twin AutoHead adds)
+	W        int        `json:"wrapper,omitempty"`          // wrapper: HandlerWrapper(k-th wrapper) from here on; 0 = none. A route's handlers (its groups' handlers included) are wrapped with the wrapper in force when the route is registered
 }
 
 type progCase struct {
@@ -107,7 +109,14 @@ func genProgBody(rng *rand.Rand, depth int) []progNode {
 		case k < 18:
 			out = append(out, progNode{Op: "any", Path: c11Paths[rng.Intn(len(c11Paths))], NH: 1 + rng.Intn(2), Spare: rng.Intn(2) * 3})
 		default:
-			out = append(out, progNode{Op: "autohead", On: rng.Intn(3) != 0})
+			if rng.Intn(3) == 0 {
+				out = append(out, progNode{Op: "wrapper", W: rng.Intn(3)})
+			} else {
+				out = append(out, progNode{Op: "autohead", On: rng.Intn(3) != 0})
+			}
+		}
+		if l := &out[len(out)-1]; (l.Op == "verb" || l.Op == "routes" || l.Op == "any") && rng.Intn(7) == 0 {
+			l.Hdr = true
 		}
 	}
 	return out
@@ -120,6 +129,8 @@ type flatReg struct {
 	Method string
 	Path   string
 	HS     []int
+	W      int  // wrapper in force at the statement
+	Hdr    bool // the statement chains Headers() and this registration is what the call returned
 }
 
 type flattener struct {
@@ -129,6 +140,7 @@ type flattener struct {
 	auto     bool
 	nextH    int
 	step     int
+	wrap     int
 	out      []flatReg
 	refusedC map[int]string // combo statements that must be refused for a repeated method, by step
 }
@@ -148,7 +160,13 @@ func (fl *flattener) add(step int, method, p string, ids []int) {
 		hs = append(hs, g...)
 	}
 	hs = append(hs, ids...)
-	fl.out = append(fl.out, flatReg{Step: step, Method: method, Path: strings.Join(fl.gpath, "") + p, HS: hs})
+	fl.out = append(fl.out, flatReg{Step: step, Method: method, Path: strings.Join(fl.gpath, "") + p, HS: hs, W: fl.wrap})
+}
+
+func (fl *flattener) markHdr(from int) {
+	for i := from; i < len(fl.out); i++ {
+		fl.out[i].Hdr = true
+	}
 }
 
 func (fl *flattener) body(nodes []progNode) {
@@ -168,7 +186,11 @@ func (fl *flattener) body(nodes []progNode) {
 				ids = fl.ids(n.NH)
 				fl.lastIDs = ids
 			}
+			from := len(fl.out)
 			fl.add(step, n.Method, n.Path, ids)
+			if n.Hdr {
+				fl.markHdr(from)
+			}
 			if n.Method == "GET" && fl.auto {
 				fl.add(step, "HEAD", n.Path, ids)
 			}
@@ -207,16 +229,26 @@ func (fl *flattener) body(nodes []progNode) {
 			}
 		case "routes":
 			ids := fl.ids(n.NH)
+			from := len(fl.out)
 			for _, m := range n.Methods {
 				fl.add(step, strings.ToUpper(strings.TrimSpace(m)), n.Path, ids)
 			}
+			if n.Hdr {
+				fl.markHdr(from)
+			}
 		case "any":
 			ids := fl.ids(n.NH)
+			from := len(fl.out)
 			for _, m := range routerMethods {
 				fl.add(step, m, n.Path, ids)
 			}
+			if n.Hdr {
+				fl.markHdr(from)
+			}
 		case "autohead":
 			fl.auto = n.On
+		case "wrapper":
+			fl.wrap = n.W
 		}
 	}
 }
@@ -244,7 +276,7 @@ func (x *progExec) hs(n, spare int) []flamego.Handler {
 }
 
 func traceHandler(id int, tr *[]string, params *map[string]string) flamego.Handler {
-	return func(c flamego.Context) {
+	body := func(c flamego.Context) {
 		*tr = append(*tr, fmt.Sprint(id))
 		cp := map[string]string{}
 		for k, v := range c.Params() {
@@ -252,7 +284,30 @@ func traceHandler(id int, tr *[]string, params *map[string]string) flamego.Handl
 		}
 		*params = cp
 	}
+	if id%2 == 1 {
+		// a signature without a built-in fast path: these are the handlers a HandlerWrapper applies to
+		return func(c flamego.Context, _ *http.Request) { body(c) }
+	}
+	return body
 }
+
+// traceWrapper is the k-th HandlerWrapper: it leaves its mark in the trace and runs the handler it was given.
+func traceWrapper(k int, tr *[]string) func(flamego.Handler) flamego.Handler {
+	if k == 0 {
+		return nil
+	}
+	return func(h flamego.Handler) flamego.Handler {
+		return func(c flamego.Context, _ http.ResponseWriter) {
+			*tr = append(*tr, fmt.Sprintf("w%d(", k))
+			if _, err := c.Invoke(h); err != nil {
+				*tr = append(*tr, "invoke-error:"+err.Error())
+			}
+			*tr = append(*tr, ")")
+		}
+	}
+}
+
+const c11HdrName, c11HdrExpr = "X-K", "^v1$"
 
 func (x *progExec) guarded(step int, fn func()) {
 	defer func() {
@@ -283,25 +338,29 @@ func (x *progExec) body(nodes []progNode) {
 				x.lastHS = hs
 			}
 			x.guarded(step, func() {
+				var rt *flamego.Route
 				switch n.Method {
 				case "GET":
-					f.Get(n.Path, hs...)
+					rt = f.Get(n.Path, hs...)
 				case "POST":
-					f.Post(n.Path, hs...)
+					rt = f.Post(n.Path, hs...)
 				case "PUT":
-					f.Put(n.Path, hs...)
+					rt = f.Put(n.Path, hs...)
 				case "DELETE":
-					f.Delete(n.Path, hs...)
+					rt = f.Delete(n.Path, hs...)
 				case "PATCH":
-					f.Patch(n.Path, hs...)
+					rt = f.Patch(n.Path, hs...)
 				case "OPTIONS":
-					f.Options(n.Path, hs...)
+					rt = f.Options(n.Path, hs...)
 				case "HEAD":
-					f.Head(n.Path, hs...)
+					rt = f.Head(n.Path, hs...)
 				case "CONNECT":
-					f.Connect(n.Path, hs...)
+					rt = f.Connect(n.Path, hs...)
 				case "TRACE":
-					f.Trace(n.Path, hs...)
+					rt = f.Trace(n.Path, hs...)
+				}
+				if n.Hdr && rt != nil {
+					rt.Headers(c11HdrName, c11HdrExpr)
 				}
 			})
 		case "group":
@@ -351,31 +410,45 @@ func (x *progExec) body(nodes []progNode) {
 		case "routes":
 			hs := x.hs(n.NH, n.Spare)
 			x.guarded(step, func() {
+				var rt *flamego.Route
 				if n.Spelling == "comma" {
-					f.Routes(n.Path, strings.Join(n.Methods, ","), hs...)
+					rt = f.Routes(n.Path, strings.Join(n.Methods, ","), hs...)
 				} else {
 					args := make([]flamego.Handler, 0, len(n.Methods)+len(hs)+n.Spare)
 					for _, m := range n.Methods[1:] {
 						args = append(args, m)
 					}
 					args = append(args, hs...)
-					f.Routes(n.Path, n.Methods[0], args...)
+					rt = f.Routes(n.Path, n.Methods[0], args...)
+				}
+				if n.Hdr && rt != nil {
+					rt.Headers(c11HdrName, c11HdrExpr)
 				}
 			})
 		case "any":
 			hs := x.hs(n.NH, n.Spare)
-			x.guarded(step, func() { f.Any(n.Path, hs...) })
+			x.guarded(step, func() {
+				rt := f.Any(n.Path, hs...)
+				if n.Hdr && rt != nil {
+					rt.Headers(c11HdrName, c11HdrExpr)
+				}
+			})
 		case "autohead":
 			f.AutoHead(n.On)
+		case "wrapper":
+			f.HandlerWrapper(traceWrapper(n.W, x.tr))
 		}
 	}
 }
 
-func serveTrace(f *flamego.Flame, tr *[]string, params *map[string]string, m, p string) (string, interface{}) {
+func serveTrace(f *flamego.Flame, tr *[]string, params *map[string]string, m, p, hv string) (string, interface{}) {
 	*tr = nil
 	*params = nil
 	rec := httptest.NewRecorder()
 	req := &http.Request{Method: m, URL: &url.URL{Path: p}, Header: http.Header{}, RequestURI: p}
+	if hv != "" {
+		req.Header.Set(c11HdrName, hv)
+	}
 	var pan interface{}
 	func() {
 		defer func() { pan = recover() }()
@@ -444,6 +517,7 @@ func judgeProg(w *core.W, c *progCase) {
 	var pB map[string]string
 	fb := flamego.NewWithLogger(io.Discard)
 	flatPanics := map[int]string{}
+	chained := map[int][]*flamego.Route{}
 	for _, fr := range fl.out {
 		if _, dead := flatPanics[fr.Step]; dead {
 			continue // the program statement stopped at its first refused expansion
@@ -458,8 +532,21 @@ func judgeProg(w *core.W, c *progCase) {
 					flatPanics[fr.Step] = fmt.Sprint(p)
 				}
 			}()
-			fb.Route(fr.Method, fr.Path, hs)
+			fb.HandlerWrapper(traceWrapper(fr.W, &trB))
+			rt := fb.Route(fr.Method, fr.Path, hs)
+			if fr.Hdr {
+				chained[fr.Step] = append(chained[fr.Step], rt)
+			}
 		}()
+	}
+	// Headers() is chained on what the call returns: a statement that was refused half-way returns nothing
+	for st, rts := range chained {
+		if _, dead := flatPanics[st]; dead {
+			continue
+		}
+		for _, rt := range rts {
+			rt.Headers(c11HdrName, c11HdrExpr)
+		}
 	}
 	for st, m := range fl.refusedC {
 		if _, ok := x.panics[st]; !ok {
@@ -497,17 +584,26 @@ func judgeProg(w *core.W, c *progCase) {
 			}
 		}
 	}
-	for _, rq := range reqs {
-		a, pa := serveTrace(x.f, &trA, &pA, rq.Method, rq.Path)
-		b, pb := serveTrace(fb, &trB, &pB, rq.Method, rq.Path)
-		w.Count("requests-compared")
-		if pa != nil || pb != nil {
-			w.Violate("serve-panic", c, fmt.Sprintf("%s %q: program instance panic=%v, flat instance panic=%v", rq.Method, rq.Path, pa, pb))
-			return
+	hvs := []string{""}
+	for _, fr := range fl.out {
+		if fr.Hdr {
+			hvs = []string{"", "v1", "v2"} // some registration is constrained: every request is made without, with a passing and with a failing value
+			break
 		}
-		if a != b {
-			w.Violate("flat-expansion", c, fmt.Sprintf("%s %q:\n program instance: %s\n flat expansion:   %s", rq.Method, rq.Path, a, b))
-			return
+	}
+	for _, rq := range reqs {
+		for _, hv := range hvs {
+			a, pa := serveTrace(x.f, &trA, &pA, rq.Method, rq.Path, hv)
+			b, pb := serveTrace(fb, &trB, &pB, rq.Method, rq.Path, hv)
+			w.Count("requests-compared")
+			if pa != nil || pb != nil {
+				w.Violate("serve-panic", c, fmt.Sprintf("%s %q: program instance panic=%v, flat instance panic=%v", rq.Method, rq.Path, pa, pb))
+				return
+			}
+			if a != b {
+				w.Violate("flat-expansion", c, fmt.Sprintf("%s %q (%s: %q):\n program instance: %s\n flat expansion:   %s", rq.Method, rq.Path, c11HdrName, hv, a, b))
+				return
+			}
 		}
 	}
 	// coverage
@@ -533,6 +629,9 @@ func progFeatures(nodes []progNode, depth int, inGroup bool) (bool, []string) {
 	sawNested := false
 	after := 0
 	for _, n := range nodes {
+		if n.Hdr {
+			feats = append(feats, "headers-chained")
+		}
 		switch n.Op {
 		case "group":
 			if depth+1 >= 2 {
@@ -556,6 +655,12 @@ func progFeatures(nodes []progNode, depth int, inGroup bool) (bool, []string) {
 			if sawNested {
 				after++
 			}
+		case "wrapper":
+			if inGroup {
+				nt = true
+				feats = append(feats, "wrapper-changed-inside-group")
+			}
+			feats = append(feats, "wrapper")
 		case "autohead":
 			if inGroup {
 				nt = true
@@ -586,7 +691,7 @@ func progFeatures(nodes []progNode, depth int, inGroup bool) (bool, []string) {
 }
 
 func runC11(r *core.Run) {
-	r.Rule("random registration programs (trees up to depth 4): verb routes, groups with 0-2 handlers (also with an empty or dynamic group path), Combo chains (1-3 verbs, repeats allowed), Routes in both spellings (lower-case / padded names), Any, AutoHead toggles at random points; handler slices handed over with spare capacity; paths from a small pool with dynamic, optional and match-all segments so that duplicates and conflicts occur. Oracle: an identically numbered flat list of single-method registrations produced by the harness's own flattener is registered on a second instance; for every method x instance path the (status, handler-id trace, parameters) must be equal, statements must be refused in both or neither, Combo must refuse a repeated verb. non-trivial = distinct programs with >=2 sibling routes after a nested group inside a group, or a Combo with >=2 verbs, or AutoHead toggled inside a group")
+	r.Rule("random registration programs (trees up to depth 4): verb routes, groups with 0-2 handlers (also with an empty or dynamic group path), Combo chains (1-3 verbs, repeats allowed), Routes in both spellings (lower-case / padded names), Any, AutoHead toggles and HandlerWrapper changes (two wrappers, none) at random points, also inside group bodies; half of the handlers have a signature the wrapper applies to; Headers() chained on one in seven verb/Routes/Any calls (requests then go without, with a passing and with a failing value); handler slices handed over with spare capacity; paths from a small pool with dynamic, optional and match-all segments so that duplicates and conflicts occur. Oracle: an identically numbered flat list of single-method registrations produced by the harness's own flattener is registered on a second instance; for every method x instance path the (status, handler-id trace, parameters) must be equal, statements must be refused in both or neither, Combo must refuse a repeated verb. non-trivial = distinct programs with >=2 sibling routes after a nested group inside a group, or a Combo with >=2 verbs, or AutoHead toggled inside a group")
 	c11Canaries(r)
 	n := r.N(15000, 1200000)
 	r.Parallel("prog", n, func(w *core.W, rng *rand.Rand, i int) {
@@ -595,7 +700,7 @@ func runC11(r *core.Run) {
 		judgeProg(w, c)
 	})
 	r.Gate("distinct_nontrivial", r.NonTrivialCount(), 2000)
-	for _, k := range []string{"feature:nesting>=2", "feature:combo>=2", "feature:combo-spare-capacity", "feature:autohead-inside-group", "feature:routes-comma", "feature:routes-multi", "feature:any", "feature:group-handlers", "feature:siblings-after-nested-group", "combo-refused-repeated-method", "statement-refused-in-both"} {
+	for _, k := range []string{"feature:nesting>=2", "feature:combo>=2", "feature:combo-spare-capacity", "feature:autohead-inside-group", "feature:routes-comma", "feature:routes-multi", "feature:any", "feature:group-handlers", "feature:siblings-after-nested-group", "feature:wrapper-changed-inside-group", "feature:wrapper", "feature:headers-chained", "combo-refused-repeated-method", "statement-refused-in-both"} {
 		r.GateCounter(k, 20)
 	}
 	r.GateCounter("requests-compared", int64(n)*20)
